@@ -267,14 +267,6 @@ def run(cs, tier, run_index):
                 res.checks_workload += 1
                 if abs(max(vals["nonsignaling"]) - lp) > TAU:
                     res.violate("C09.ord.npa_le_ns", why="referee dimension 1: non-signaling value differs from the LP value", got=max(vals["nonsignaling"]), expected=lp, **meta)
-        if "npa1" in vals:
-            nlg = M.NonlocalGame(prob.copy(), p4.copy())
-            o = call_value(lambda: nlg.commuting_measurement_value_upper_bound(1), res, "nlg_npa1")
-            if o[0] == "ok":
-                res.checks_workload += 1
-                if abs(o[1] - vals["npa1"][0]) > TAU:
-                    res.violate("C09.val.npa_matches_nlg", extended=vals["npa1"][0], nonlocal_game=o[1], **meta)
-
     if "lower_bound" in vals:
         res.probe("lower_bound_obtained")
     if len(ents) >= 2:
